@@ -98,17 +98,28 @@ def _slice_consts(b, local, depth=0, seen=None):
 def upvar_origin(prog, b, field_idx):
     """For a closure/coroutine body b and an upvar field index: (parent body, operand) that
     initialises it, following the construction site in the parent."""
+    all_ = upvar_origins(prog, b, field_idx)
+    return all_[0] if all_ else None
+
+
+def upvar_origins(prog, b, field_idx):
+    """all construction sites (a spliced `async fn` helper is built wherever it was called)"""
     if not b.parent:
-        return None
+        return []
     cands = [p for p in prog.family(b.owner, b.krate) if p.id == b.parent]
+    if not cands or b.j.get("reowned_from"):
+        cands = [p for p in prog.family(b.owner, b.krate) if p is not b]
+    out = []
     for pb in cands:
         for blk in pb.blocks:
+            if blk.get("thr"):
+                continue
             for s in blk["s"]:
                 if s["k"] == "assign" and s["r"]["k"] == "agg" and s["r"].get("def") == b.id:
                     ops = s["r"]["ops"]
                     if field_idx < len(ops):
-                        return pb, ops[field_idx]
-    return None
+                        out.append((pb, ops[field_idx]))
+    return out
 
 
 def resolve_label(prog, b, operand, depth=0):
@@ -129,9 +140,11 @@ def resolve_label(prog, b, operand, depth=0):
                 f = e["f"]
                 break
         if f is not None:
-            org = upvar_origin(prog, b, f)
-            if org:
-                return resolve_label(prog, org[0], org[1], depth + 1)
+            orgs = upvar_origins(prog, b, f)
+            if len(orgs) == 1:
+                return resolve_label(prog, orgs[0][0], orgs[0][1], depth + 1)
+            if len(orgs) > 1:
+                return ("multi", tuple(resolve_label(prog, o[0], o[1], depth + 1) for o in orgs))
         return ("?",)
     consts, params = _slice_consts(b, l)
     # params of a closure body: env (_1) handled through explicit upvar reads
@@ -162,9 +175,11 @@ def resolve_label(prog, b, operand, depth=0):
                                 break
     inner = None
     if up:
-        org = upvar_origin(prog, b, up[0])
-        if org:
-            inner = resolve_label(prog, org[0], org[1], depth + 1)
+        orgs = upvar_origins(prog, b, up[0])
+        if len(orgs) == 1:
+            inner = resolve_label(prog, orgs[0][0], orgs[0][1], depth + 1)
+        elif len(orgs) > 1:
+            inner = ("multi", tuple(resolve_label(prog, o[0], o[1], depth + 1) for o in orgs))
     elif res_params and not b.parent:
         inner = ("param", b.owner, res_params[0] - 1)
     elif res_params and b.parent:
@@ -222,7 +237,13 @@ class ChannelInventory:
             for owner, ss in by_owner.items():
                 if owner in PRIMS:
                     continue
-                if all(s.label_src[0] == "param" and s.label_src[1] == owner for s in ss):
+                # ... and performs each of them at most once per call: a helper that *loops* over sends / receives
+                # (streams a message in parts) is engine code - its sites stay visible to the channel-discipline rules,
+                # only their labels come from the callers
+                def in_loop(site):
+                    bb = site.body
+                    return site.block in bb.reachable_from(bb.succ()[site.block][0]) if bb.succ()[site.block] else False
+                if all(s.label_src[0] == "param" and s.label_src[1] == owner for s in ss) and not any(in_loop(s) for s in ss):
                     idxs = {s.label_src[2] for s in ss}
                     if len(idxs) == 1:
                         new[owner] = (list(idxs)[0], any(PRIMS[s.prim][1] for s in ss), any(PRIMS[s.prim][2] for s in ss), all(PRIMS[s.prim][3] for s in ss))
@@ -267,6 +288,11 @@ class ChannelInventory:
                 return {(src[1], src[2])}
             if src[0] == "concat":
                 return params_of(src[2])
+            if src[0] == "multi":
+                out_ = set()
+                for x_ in src[1]:
+                    out_ |= params_of(x_)
+                return out_
             return set()
         for _ in range(4):
             need = set()
@@ -309,6 +335,11 @@ class ChannelInventory:
             return set(self.param_labels.get((src[1], src[2]), ()))
         if k == "concat":
             return {src[1] + x for x in self.concretize(src[2])}
+        if k == "multi":
+            out = set()
+            for x in src[1]:
+                out |= self.concretize(x)
+            return out
         return set()
 
     def direct_sites(self):
